@@ -379,6 +379,10 @@ func CompileWarrior(r io.Reader, config SimulatorConfig) (WarriorData, error) {
 		return WarriorData{}, err
 	}
 
+	// comments between a label and its instruction are not in the line list,
+	// but they may be assertions
+	sourceLines = append(sourceLines, parser.gapComments...)
+
 	compiler, err := newCompiler(sourceLines, metadata, config)
 	if err != nil {
 		return WarriorData{}, err
